@@ -14,6 +14,10 @@
    regression inputs); everything else is the business of the mutation search (harness/c12*.go). *)
 From KV Require Import Yaml.Fns Yaml.FieldSpec Yaml.TotalityProofs.
 From KV Require Import Glob.PanicSiteTypes Glob.PanicAllow Glob.PanicAllowProofs Gen.PanicSites Gen.C12Findings.
+From KV Require Import Glob.TotalityMore.
+From KV Require Yaml.Split Yaml.Annot Yaml.Match Yaml.MatchProofs Yaml.MatchTotalProofs Fs.MemFs Fs.DiskFs Fs.DiskFsProofs
+     Fs.Loader Res.Resource Res.Labels Res.Namespace Res.Generators Res.NameRef
+     Yaml.Walk Yaml.Merge2 Yaml.Merge2Proofs Yaml.Merge3 Yaml.Merge3Proofs Yaml.Fmt Yaml.FmtProofs.
 
 (* ---- (1) totality of the kyaml core ------------------------------------------------------- *)
 
@@ -124,6 +128,174 @@ Theorem C12_no_panic_partial :
   (forall leaf ps n, lookup_create leaf ps n <> Panic /\ lookup_create leaf ps n <> Diverge).
 Proof. exact core_total_summary. Qed.
 Print Assumptions C12_no_panic_partial.
+
+(* ---- (1b) the other properties' models (Glob/TotalityMore.v; owners' files imported, not copied) ---
+   [safe r] := r <> Panic /\ r <> Diverge  (the function returns Ok or Err).
+   FULL = for all inputs, no hypothesis. PARTIAL = under the stated hypothesis, or only one of the two
+   outcomes excluded. Where the faithful model panics / diverges, the exact condition and its finding. *)
+
+(* FULL. splitDocuments and ByteReader's chunking (Yaml/Split.v, C13), any byte string *)
+Theorem C12_total_core_split_documents :
+  forall s, safe (Split.split_documents_full s) /\ safe (Split.split_documents s) /\ safe (Split.reader_chunks s).
+Proof. exact (fun s => conj (safe_split_documents_full s) (conj (safe_split_documents s) (safe_reader_chunks s))). Qed.
+Print Assumptions C12_total_core_split_documents.
+
+(* FULL. the reader / writer annotation helpers (Yaml/Annot.v, C13), any node incl. ill-typed metadata *)
+Theorem C12_total_core_annotations :
+  forall nonstr k v i n,
+    safe (Annot.set_annotation nonstr k v n) /\ safe (Annot.clear_annotation k n) /\
+    safe (Annot.clear_empty_annotations n) /\ safe (Annot.read_set nonstr i n) /\ safe (Annot.write_clear n).
+Proof.
+  exact (fun nonstr k v i n =>
+           conj (safe_set_annotation nonstr k v n) (conj (safe_clear_annotation k n)
+           (conj (safe_clear_empty_annotations n) (conj (safe_read_set nonstr i n) (safe_write_clear n))))).
+Qed.
+Print Assumptions C12_total_core_annotations.
+
+(* FULL (Panic). PathMatcher (Yaml/Match.v, C10) never panics: any path, document, Create kind, retry
+   budget, regexp compiler and encoder *)
+Theorem C12_total_core_match_no_panic :
+  forall parse enc nonstr create fuel path n, Match.pm parse enc nonstr create fuel path n <> Panic.
+Proof. exact pm_no_panic. Qed.
+Print Assumptions C12_total_core_match_no_panic.
+
+(* FULL without Create: Ok or Err with one unit of fuel (Diverge part: owner lemma pm_nocreate_total) *)
+Theorem C12_total_core_match_nocreate :
+  forall parse enc nonstr fuel path n, safe (Match.pm parse enc nonstr None (S fuel) path n).
+Proof. exact safe_pm_nocreate. Qed.
+Print Assumptions C12_total_core_match_nocreate.
+
+(* PARTIAL with Create (owner lemma): returns when every list-selector value matches itself *)
+Theorem C12_match_create_no_diverge_partial :
+  forall parse enc nonstr (k : kind) fuel (path : list string),
+    MatchTotalProofs.sel_then_fields path = true -> MatchTotalProofs.self_matching parse enc path ->
+    forall n, Match.pm parse enc nonstr (Some k) (S (S fuel)) path n <> Diverge.
+Proof. exact MatchTotalProofs.pm_create_total. Qed.
+Print Assumptions C12_match_create_no_diverge_partial.
+
+(* REFUTED with Create in general = finding hang:kyaml/yaml PathMatcher.doSeq (F6): for EVERY fuel the
+   model runs out of it on spec.containers.[name=^zz$].image (owner lemma) *)
+Theorem C12_refuted_match_create_diverges :
+  forall fuel, Match.pm MatchProofs.zz_parse node_value (fun _ => false) (Some KScalar) fuel
+                        MatchProofs.zz_path MatchProofs.zz_doc = Diverge.
+Proof. exact MatchProofs.match_diverges_lemma. Qed.
+Print Assumptions C12_refuted_match_create_diverges.
+
+(* FULL. the in-memory file system (Fs/MemFs.v, C05) and symlink resolution of the on-disk one
+   (Fs/DiskFs.v: explicit budget of 255 links, exhaustion is the ELOOP error - owner lemma) *)
+Theorem C12_total_core_fs :
+  forall mroot droot cwd p b stk todo,
+    safe (MemFs.m_cleaned_abs mroot p) /\ safe (MemFs.m_read_file mroot p) /\
+    safe (DiskFs.eval_links droot b stk todo) /\ safe (DiskFs.eval_symlinks droot p) /\
+    safe (DiskFs.d_read_file droot cwd p) /\ DiskFs.d_cleaned_abs droot cwd p <> Diverge.
+Proof.
+  exact (fun mroot droot cwd p b stk todo =>
+           conj (safe_m_cleaned_abs mroot p) (conj (safe_m_read_file mroot p)
+           (conj (safe_eval_links droot b stk todo) (conj (safe_eval_symlinks droot p)
+           (conj (safe_d_read_file droot cwd p) (d_cleaned_abs_no_diverge droot cwd p)))))).
+Qed.
+Print Assumptions C12_total_core_fs.
+
+(* PARTIAL. fsOnDisk.CleanedAbs: its three log.Fatalf branches are dead when the tree is well formed
+   and its root is a directory (owner lemma d_cleaned_abs_spec); justifies the three Unreachable
+   entries of Glob/PanicAllow.v for kyaml/filesys fsOnDisk.CleanedAbs *)
+Theorem C12_disk_cleaned_abs_partial :
+  forall root cwd p, DiskFsProofs.is_dir_node root -> DiskFs.wf_dnode root = true ->
+    safe (DiskFs.d_cleaned_abs root cwd p).
+Proof. exact safe_d_cleaned_abs. Qed.
+Print Assumptions C12_disk_cleaned_abs_partial.
+
+(* FULL over the in-memory file system / PARTIAL (well-formed tree) over the disk: FileLoader.Load,
+   FileLoader.New, loader.NewLoader (Fs/Loader.v, C05). The remote fetch and the git cloner are
+   parameters, assumed safe (they are outside the property: OutOfScope) *)
+Theorem C12_total_core_loader_mem :
+  forall remote http_get is_repo git_new,
+    (forall p, safe (http_get p)) -> (forall l p, safe (git_new l p)) ->
+    forall root l p r target,
+      safe (Loader.load remote http_get (Loader.mem_ops root) l p) /\
+      safe (Loader.new_root is_repo git_new (Loader.mem_ops root) l p) /\
+      safe (Loader.new_loader is_repo git_new (Loader.mem_ops root) r target).
+Proof. exact safe_loader_mem. Qed.
+Print Assumptions C12_total_core_loader_mem.
+
+Theorem C12_loader_disk_partial :
+  forall remote http_get is_repo git_new,
+    (forall p, safe (http_get p)) -> (forall l p, safe (git_new l p)) ->
+    forall root cwd l p r target,
+      DiskFsProofs.is_dir_node root -> DiskFs.wf_dnode root = true ->
+      safe (Loader.load remote http_get (Loader.disk_ops root cwd) l p) /\
+      safe (Loader.new_root is_repo git_new (Loader.disk_ops root cwd) l p) /\
+      safe (Loader.new_loader is_repo git_new (Loader.disk_ops root cwd) r target).
+Proof. exact safe_loader_disk. Qed.
+Print Assumptions C12_loader_disk_partial.
+
+(* EXACT. Resource.PrevIds (Res/Resource.v, C03) panics exactly when the three CSV build annotations
+   have different numbers of entries = finding F7a (PrevIds explicit-number-of-previous); never Diverge *)
+Theorem C12_prev_ids_panic_iff :
+  forall r,
+    (Resource.prev_ids r = Panic <->
+     exists s, Resource.r_pnames r = Some s /\
+       (Nat.eqb (List.length (split_on ","%char s)) (List.length (split_on ","%char (Resource.or_empty (Resource.r_pnss r)))) &&
+        Nat.eqb (List.length (split_on ","%char s)) (List.length (split_on ","%char (Resource.or_empty (Resource.r_pkinds r))))) = false)
+    /\ Resource.prev_ids r <> Diverge.
+Proof. exact (fun r => conj (prev_ids_panic_iff r) (prev_ids_no_diverge r)). Qed.
+Print Assumptions C12_prev_ids_panic_iff.
+
+(* witness of F7a: the previous name "a,b" (replayed by corpus/C12/f7a-name-with-comma-prefix.json) *)
+Theorem C12_refuted_prev_ids_comma : exists r, Resource.prev_ids r = Panic.
+Proof. exact prev_ids_comma_witness. Qed.
+Print Assumptions C12_refuted_prev_ids_comma.
+
+(* FULL. labels / annotations filter and transformer (Res/Labels.v, C08) *)
+Theorem C12_total_core_label_filter :
+  forall nonstr labels fss obj rs,
+    safe (Labels.label_filter nonstr labels fss obj) /\ safe (Labels.run_label_transformer nonstr labels fss rs).
+Proof. exact (fun nonstr labels fss obj rs => conj (safe_label_filter nonstr labels fss obj) (safe_run_label_transformer nonstr labels fss rs)). Qed.
+Print Assumptions C12_total_core_label_filter.
+
+(* FULL. namespace filter incl. the role-binding subjects hack, and the transformer (Res/Namespace.v, C09) *)
+Theorem C12_total_core_ns_filter :
+  forall t c obj rs, safe (Namespace.ns_filter t c obj) /\ safe (Namespace.ns_transform t c rs).
+Proof. exact (fun t c obj rs => conj (safe_ns_filter t c obj) (safe_ns_transform t c rs)). Qed.
+Print Assumptions C12_total_core_ns_filter.
+
+(* FULL for the model (Res/Generators.v, C06): appendReplaceOrMerge / AbsorbAll. The model keeps data as
+   string dictionaries, so the two SetDataMap / SetBinaryDataMap log.Fatal findings (non-string data
+   key + behavior: merge) are OUTSIDE it *)
+Theorem C12_total_core_absorb :
+  forall rm r l, safe (Generators.absorb rm r) /\ safe (Generators.absorb_all rm l).
+Proof. exact (fun rm r l => conj (safe_absorb rm r) (safe_absorb_all l rm)). Qed.
+Print Assumptions C12_total_core_absorb.
+
+(* FULL. Filter.selectReferral (Res/NameRef.v, C03) *)
+Theorem C12_total_core_select_referral :
+  forall x old l identical, safe (NameRef.select_referral x old l identical).
+Proof. exact safe_select_referral. Qed.
+Print Assumptions C12_total_core_select_referral.
+
+(* PARTIAL (owner theorems re-exported). merge2 / merge3 on the generic walker (Yaml/Walk.v, C04 / C15)
+   never run out of their canonical fuel. Panic-freedom is NOT proved: the walker model has one Panic
+   site (appendListNode indexing keys[0] of an empty key list), whose guard (validateKeys never returns
+   an empty list for a non-empty one) is not assembled into a theorem; no input reaching it is known *)
+Theorem C12_merge2_no_diverge_partial :
+  forall (Sc : Type) (sch : Walk.schema Sc) (opts : Walk.wopts) (nonstr : string -> bool) (patch target : option node),
+    Merge2.merge2 sch opts nonstr patch target <> Diverge.
+Proof. exact (@Merge2Proofs.merge2_no_diverge). Qed.
+Print Assumptions C12_merge2_no_diverge_partial.
+
+Theorem C12_merge3_no_diverge_partial :
+  forall (Sc : Type) (sch : Walk.schema Sc) (opts : Walk.wopts) (nonstr : string -> bool) (l o u : option node),
+    Merge3.merge3 sch opts nonstr l o u <> Diverge.
+Proof. exact (@Merge3Proofs.merge3_no_diverge). Qed.
+Print Assumptions C12_merge3_no_diverge_partial.
+
+(* PARTIAL (owner theorem re-exported). the formatter (Yaml/Fmt.v, C20) returns Ok when no sequence sits
+   in a keyed whitelisted list; the model has no fuel, so it cannot Diverge *)
+Theorem C12_fmt_node_partial :
+  forall nonstr kind api srt n s p,
+    Fmt.keyed_ok kind api p n = true -> exists n', Fmt.fmt_node nonstr srt kind api s p n = Ok n'.
+Proof. exact FmtProofs.fmt_no_panic. Qed.
+Print Assumptions C12_fmt_node_partial.
 
 (* ---- (2) explicit panic / fatal / exit / unchecked-assertion sites ---------------------------- *)
 
